@@ -18,7 +18,7 @@ def sh(cmd, **kw):
 
 
 def worker(i, jobs, out, args, lock):
-    wt, lean = '%s/w%d' % (ROOT, i), '%s/lean%d' % (ROOT, i)
+    wt, lean = '%s/w%d' % (args.root, i), '%s/lean%d' % (args.root, i)
     sh('git -C /repo worktree remove --force %s; rm -rf %s %s' % (wt, wt, lean))
     rc, o = sh('git -C /repo worktree add --detach -f %s HEAD' % wt)
     if rc:
@@ -69,8 +69,9 @@ def main():
     ap.add_argument('--tier', default='quick')
     ap.add_argument('--timeout', type=int, default=2400)
     ap.add_argument('--stop-at-first', action='store_true')
+    ap.add_argument('--root', default=ROOT, help='scratch directory for the worktrees and Lean copies')
     args = ap.parse_args()
-    os.makedirs(ROOT, exist_ok=True)
+    os.makedirs(args.root, exist_ok=True)
     jobs = queue.Queue()
     for l in open(args.jobs):
         if l.strip():
